@@ -233,7 +233,11 @@ Fixpoint classify (f : pform) : cform :=
       | [_; _] => CUnspec
       | _ => CBad                                  (* GenerateDef: Wrong number of arguments *)
       end
-    else if h =? a_failk then match r with [e] => CFailk (classify e) | _ => CUnspec end
+    else if h =? a_failk then
+      (* a call: the argument FORMS of a call are generated at run time (vm.go: CallExprInstr ->
+         environment.go: PrepareCallExprArgs), so a nested form in argument position belongs to the
+         run phase; this model has calls with atomic arguments only *)
+      match r with [FAtom x as e] => CFailk (classify e) | _ => CUnspec end
     else if h =? a_fn then
       match r with
       | FArr [] :: (_ :: _) as body => CFn (map classify body)
@@ -297,6 +301,7 @@ Fixpoint has_def (f : cform) : bool :=
   | CSeq l => existsb has_def l
   | CFailk e => has_def e
   | CFor _ _ _ _ _ => true
+  | CExit _ => true        (* a continue in the init of its own loop jumps: declined *)
   | _ => false
   end.
 Definition is_false (f : cform) : bool := match f with CFalse => true | _ => false end.
